@@ -68,7 +68,7 @@ class Objective:
     every call and logs every batch."""
 
     def __init__(self, table, events, none_at=None, m_max=None, latency=None,
-                 call_cap=5000, ret_list=False):
+                 call_cap=5000, ret_list=False, ret_f32=False):
         self.T = table
         self.n = table.shape
         self.events = events
@@ -77,6 +77,7 @@ class Objective:
         self.latency = latency or []
         self.call_cap = call_cap
         self.ret_list = ret_list
+        self.ret_f32 = ret_f32
         self.calls = 0
         self.rows = 0                  # rows for which values were returned
         self.batches = []              # every batch received (copies)
@@ -125,6 +126,8 @@ class Objective:
         self.served.append(Ic)
         self.events.append(('f', self.calls, len(I), 'values'))
         y = self.T[tuple(I.T)]
+        if self.ret_f32:
+            return y.astype(np.float32)
         return y.tolist() if self.ret_list else y
 
 
